@@ -1,9 +1,31 @@
 import Driver.Util
-open Lean Replicat
+import ReplicatModel.Format
+open Lean Replicat Replicat.Format
 namespace Driver.HFormat
-/-- requests `format.*` -/
+def parseReply (r : Except ParseErr (Str × Str)) : Json :=
+  match r with
+  | .ok (name, tag) => Json.mkObj [("name", Json.str (String.ofList name)), ("tag", Json.str (String.ofList tag)), ("error", Json.null)]
+  | .error .notLocation => Json.mkObj [("error", Json.str "value_error")]
+  | .error .index => Json.mkObj [("error", Json.str "index_error")]
+
+/-- requests `format.*`: `format.chunk_location` / `format.snapshot_location` {name, tag} → {location};
+`format.parse_chunk` / `format.parse_snapshot` {location} → {name, tag, error} -/
 def handleFormat (op : String) (j : Json) : Except String Json := do
   match op with
+  | "format.chunk_location" =>
+    let name ← getStr j "name"
+    let tag ← getStr j "tag"
+    pure (Json.mkObj [("location", Json.str (String.ofList (getChunkLocation name.toList tag.toList)))])
+  | "format.snapshot_location" =>
+    let name ← getStr j "name"
+    let tag ← getStr j "tag"
+    pure (Json.mkObj [("location", Json.str (String.ofList (getSnapshotLocation name.toList tag.toList)))])
+  | "format.parse_chunk" =>
+    let loc ← getStr j "location"
+    pure (parseReply (parseChunkLocation loc.toList))
+  | "format.parse_snapshot" =>
+    let loc ← getStr j "location"
+    pure (parseReply (parseSnapshotLocation loc.toList))
   | _ => throw s!"unknown op {op}"
 
 end Driver.HFormat
